@@ -269,7 +269,7 @@ Qed.
 Theorem listed_exist S d pat loc l x : wf_fs S -> fs_list S d pat loc = FOk l -> In x l -> fs_exists S x false = FOk true.
 Proof.
   intros W H Hx. unfold fs_list in H. destruct (fs_addr S d loc) as [[s a]|e|k] eqn:A; cbn [fbind] in H; try discriminate.
-  injection H as <-. apply sort_dedup_In, in_map_iff in Hx. destruct Hx as (q & <- & Hq).
+  destruct (wf_pattern pat); [|discriminate]. injection H as <-. apply sort_dedup_In, in_map_iff in Hx. destruct Hx as (q & <- & Hq).
   apply in_flat_map in Hq. destruct Hq as (L & HL & Hq). apply l_list_In in Hq. destruct Hq as (_ & K & _).
   unfold wf_fs in W. rewrite Forall_forall in W. destruct (W L HL) as (ND & Pl & An). destruct (Pl q K) as (Hne & Hp).
   assert (A' : fs_addr S (render_path q) false = FOk (render_path q, (q, false))).
@@ -328,4 +328,18 @@ Proof.
     exists L, q, rel. auto.
   - intros (L & q & rel & HL & P & E & M & ->). exists L, q. repeat split; auto.
     apply (l_list_wf L dd tr pat q (W L HL)). split; [exact P|]. exists rel. auto.
+Qed.
+
+(* ------------------------------------------------------------------ the modelled pattern arguments *)
+Lemma wf_pattern_spec pat : wf_pattern pat = true <->
+  match pat with
+  | PAll | PStar => True
+  | PExt e | PRecExt e => glob_literal e
+  | PSub n => plainP n /\ glob_literal n
+  end.
+Proof.
+  destruct pat as [| |e|e|n]; cbn [wf_pattern]; try tauto; try apply plain_pattern_arg_spec.
+  rewrite andb_true_iff, plain_pattern_arg_spec. split.
+  - intros (P & G). split; [|exact G]. apply plain_plainP; [exact P|]. intros Hin. apply (G SLASH Hin). cbn. tauto.
+  - intros (P & G). split; [apply plain_of_plainP; exact P | exact G].
 Qed.
